@@ -93,6 +93,17 @@ def check_vector(v, dt, ids, acc, case, order, full):
     acc.step(gapped, 'unique')
     if u != present:
         report('unique', type(u).__name__ if isinstance(u, BaseException) else 'value', {}, present, u)
+    # the same vector as a plain sequence of its elements (NumPy scalars of the dtype) and as a tuple
+    if n:
+        for form, seq in (('list-of-scalars', list(arr)), ('tuple', tuple(arr.tolist()))):
+            try:
+                u = as_list(_unique(seq))
+            except Exception as e:
+                u = e
+            acc.step(gapped, 'unique:' + form)
+            if u != present:
+                report('unique', (type(u).__name__ if isinstance(u, BaseException) else 'value') + ',' + form,
+                       {'form': form}, present, u)
     # selection of clusters
     reqs = [()]
     maxreq = 3 if full else 2
